@@ -25,11 +25,12 @@ def project_machine(ctx, N, events):
         data = M.deref(a[0]).conc(); i = int(data)
         okb = st['parse_ok'][i]
         events.append(('parse', i))
-        if M.branch(okb): return ok(Agg('Library', [VecV([Str('lib%d' % i)])]))
+        # the library a file parses to is an uninterpreted value of its text: two files may hold equal declarations
+        if M.branch(okb): return ok(Agg('Library', [VecV([SymStr(st['content'][i])])]))
         return err(diag('parse%d' % i))
     def stub_analyze(M, fr, callee, a):
         libs = M.deref(a[0]); n = len(libs.items)
-        events.append(('analyze', sorted(M.deref(x).f[0].items[0].conc() for x in libs.items)))
+        events.append(('analyze', n))
         if n == 0: return err(VecV([diag('P0030')]))
         if M.branch(st['an_ok']): return ok(UNIT)
         return err(VecV([diag('sem')]))
@@ -38,6 +39,7 @@ def project_machine(ctx, N, events):
         events.clear()
         st['parse_ok'] = [M.fresh_bool('parse_ok') for _ in range(N)]
         st['an_ok'] = M.fresh_bool('analyze_ok')
+        st['content'] = [M.fresh_bv('content%d' % i, 32) for i in range(N)]
         sfields = [f for f, _ in P.structs.get('Source', [])]
         if sfields[:3] != ['file_id', 'data', 'library']: raise Unsupported('unexpected layout of Source: %r' % sfields)
         srcs = VecV([Agg('()', [Agg('FileId', [Str('f%d' % i)]), Agg('Source', [Agg('FileId', [Str('f%d' % i)]), Str(str(i)), none()])]) for i in range(N)])
@@ -78,6 +80,11 @@ def _k1_job(job):
             part.add('C03/K1/parse-diagnostic-dropped', 'semantic() fails but omits the diagnostic of a file that failed to parse (%s)' % codes, wit, None)
         if some_parsed and not aok and (not is_err or 'sem' not in codes):
             part.add('C03/K1/semantic-error-masked', 'analysis diagnostics are not propagated by semantic()', wit, ('project', (['bad_sem' if i == 0 else 'good' for i in range(N)],)))
+        seen_by_analysis = [e[1] for e in events if e[0] == 'analyze']
+        if seen_by_analysis and seen_by_analysis[-1] != sum(pok):
+            same = [(i, j) for i in range(N) for j in range(i + 1, N) if pok[i] and pok[j] and m.eval(st['content'][i], True).as_long() == m.eval(st['content'][j], True).as_long()]
+            part.add('C03/K1/library-dropped-before-analysis', '%d files parsed but the analysis is given %d libraries (files with equal declarations: %s): declarations of a whole file are never analysed' % (sum(pok), seen_by_analysis[-1], same),
+                     dict(wit, equal_files=same), ('project_copies', (N,)))
         if not bad_files and aok and is_err:
             part.add('C03/K1/spurious-error', 'semantic() fails although every file parsed and analysis succeeded (%s)' % codes, wit, None)
         # C06-K1: the verdict is a function of the outcomes, not of the hash iteration order
@@ -104,6 +111,17 @@ def _replay_project(kinds):
         files = {('f%d.st' % i): s for i, s in enumerate(srcs)}
         rc, out, errt = ctx.ironplcc(['check'], files)
         return (r['ok'] and expect_fail) or (rc == 0 and expect_fail), {'kinds': kinds, 'project_semantic_ok': r['ok'], 'cli_exit': rc, 'cli_stdout': out[:80], 'codes': [d['code'] for d in r.get('diagnostics', [])]}
+    return rp
+
+@replay_factory('project_copies')
+def _replay_project_copies(n):
+    def rp(ctx):
+        # the same declarations in two files (second copy re-formatted): the duplicate names must be diagnosed
+        a = GOOD % 0; b = a.replace('\n', '\n\n').replace('PROGRAM', 'program')
+        files = {'f0.st': a, 'f1.st': b}
+        for i in range(2, n): files['f%d.st' % i] = GOOD % i
+        rc, out, errt = ctx.ironplcc(['check'], files)
+        return rc == 0, {'files': sorted(files), 'cli_exit': rc, 'cli_stdout': out[:80], 'codes': sorted(set(re.findall(r'error\[(P\d{4})\]', errt)))}
     return rp
 
 @kernel('K1 project.semantic_merge')
